@@ -14,4 +14,3 @@ open Emboss.Scope
 #print axioms C12_abbreviation_private
 #print axioms C12_member_lookup_partial
 #print axioms C12_abbreviation_tail_counterexample
-#print axioms C12_member_of_parameter_counterexample
